@@ -48,7 +48,7 @@ func runC18(r *Run) {
 	var updates []*Effect
 	for _, e := range effs {
 		switch {
-		case e.Verb == "Get" && e.Kind == c18SettingKind && e.Fn == rec:
+		case e.Verb == "Get" && e.Kind == c18SettingKind:
 			getEff = pickOne(r, "Get(ExtendedDaemonsetSetting)", getEff, e)
 		case e.Verb == "List" && e.Kind == c18SettingListKind:
 			listSettings = pickOne(r, "List(ExtendedDaemonsetSettingList)", listSettings, e)
@@ -62,42 +62,62 @@ func runC18(r *Run) {
 		r.Fatal("setting Reconcile: expected one Get(setting), one List(settings), one List(nodes) and a Status().Update(setting); found get=%v settings=%v nodes=%v updates=%d", getEff != nil, listSettings != nil, listNodes != nil, len(updates))
 		return
 	}
-	if listSettings.Fn != rec || listNodes.Fn != rec {
-		r.Undecided("C18.R2", "list sites", r.Prog.Pos(listSettings.Call.Pos()), shortFunc(listSettings.Fn), "the settings and node lists are not issued by the Reconcile function itself")
-		return
-	}
 
-	// the conflict search = the repository function that receives the listed settings
-	var conflictCall *ssa.Call
-	listObj := unwrap(listSettings.Obj)
-	for _, ci := range callsIn(rec) {
-		c, isCall := ci.(*ssa.Call)
-		cal := staticCallee(ci.Common())
-		if !isCall || cal == nil || !r.Prog.IsRuleSite(cal) {
+	// The conflict search = the one function reachable from Reconcile that tests a node's labels
+	// against the selector of a setting (anchored by what it does; helpers that only hand the lists
+	// on, or that prepare the sorted slice, are not it).
+	var cf *ssa.Function
+	for _, fn := range sortedFuncs(reach) {
+		if !r.Prog.IsRuleSite(fn) {
 			continue
 		}
-		for _, a := range ci.Common().Args {
-			if unwrap(a) == listObj {
-				if conflictCall != nil && conflictCall != c {
-					r.Undecided("C18.R2", "conflict search call", r.Prog.Pos(c.Pos()), shortFunc(rec), "the listed settings are handed to more than one function")
+		for _, ci := range callsIn(fn) {
+			cv, isV := ci.(*ssa.Call)
+			if !isV {
+				continue
+			}
+			if _, ok := c18MatchInfo(cv); ok {
+				if cf != nil && cf != fn {
+					r.Undecided("C18.R2", "conflict search", r.Prog.Pos(cv.Pos()), shortFunc(fn), "settings' selectors are matched against nodes in more than one function reachable from Reconcile")
 					return
 				}
-				conflictCall = c
+				cf = fn
 			}
 		}
 	}
-	if conflictCall == nil {
-		r.Fatal("setting Reconcile: no repository function receives the listed settings (conflict search not found)")
+	if cf == nil || cf == rec {
+		r.Fatal("setting Reconcile: no function (other than Reconcile) reachable from it matches a setting's node selector against node labels (conflict search not found)")
 		return
 	}
-	cf := staticCallee(&conflictCall.Call)
-
-	c18ListScope(r, rec, getEff, listSettings, listNodes, conflictCall)
-	c18StatusTable(r, rec, reach, updates, getEff, listSettings, listNodes, conflictCall)
 	scan := c18ConflictSearch(r, cf)
+	entry := cf
 	if scan != nil {
-		c18Order(r, cf, scan)
+		if scan.mapParam != nil {
+			// the scan is a helper called per node: the function around it is the conflict search
+			entry = c18ScanCaller(r, cf, scan, reach)
+			if entry == nil {
+				return
+			}
+		} else {
+			c18Order(r, cf, scan)
+		}
 	}
+	var conflictCall *ssa.Call
+	for _, ci := range callSitesOf(entry, reach) {
+		c, isCall := ci.(*ssa.Call)
+		if !isCall || conflictCall != nil {
+			r.Undecided("C18.R2", "conflict search call", r.Prog.Pos(ci.Pos()), shortFunc(ci.Parent()), "the conflict search is called from more than one site (or by go/defer)")
+			return
+		}
+		conflictCall = c
+	}
+	if conflictCall == nil {
+		r.Fatal("setting Reconcile: no static call of the conflict search %s", shortFunc(entry))
+		return
+	}
+
+	c18ListScope(r, rec, reach, getEff, listSettings, listNodes, conflictCall)
+	c18StatusTable(r, rec, reach, updates, getEff, listSettings, listNodes, conflictCall)
 	conv := ""
 	if scan != nil {
 		conv = scan.converter
@@ -115,85 +135,8 @@ func pickOne(r *Run, what string, old, e *Effect) *Effect {
 // ---------------------------------------------------------------------------------------------
 // R2
 
-func c18ListScope(r *Run, rec *ssa.Function, getEff, listSettings, listNodes *Effect, conflictCall *ssa.Call) {
-	inst := unwrap(getEff.Obj)
-	isInst := func(v ssa.Value) bool { return v == inst }
-	// settings list: namespace of the reconciled object on every alternative
-	{
-		e := listSettings
-		pos := r.Prog.Pos(e.Call.Pos())
-		args := e.Call.Common().Args
-		alts, ok := sliceAlternatives(args[len(args)-1])
-		if !ok || len(alts) == 0 {
-			r.Undecided("C18.R2", "List(ExtendedDaemonsetSettingList) options", pos, shortFunc(e.Fn), "list options are not built from literals/append in this function")
-		}
-		for i, alt := range alts {
-			has := false
-			var descs []string
-			for _, el := range alt {
-				o := classifyListOption(el)
-				descs = append(descs, o.desc)
-				if o.kind == "namespace" && o.ns != nil && namespaceOf(isInst)(o.ns) {
-					has = true
-				}
-			}
-			r.Check("C18.R2", fmt.Sprintf("List(ExtendedDaemonsetSettingList) options alt%d", i), pos, shortFunc(e.Fn),
-				"settings are listed in the namespace of the reconciled setting (names are the tie-break of the conflict order and are unique only per namespace)", has,
-				"options: ["+strings.Join(descs, ", ")+"]")
-		}
-	}
-	// node list: unfiltered
-	{
-		e := listNodes
-		pos := r.Prog.Pos(e.Call.Pos())
-		args := e.Call.Common().Args
-		alts, ok := sliceAlternatives(args[len(args)-1])
-		if !ok {
-			r.Undecided("C18.R2", "List(NodeList) options", pos, shortFunc(e.Fn), "list options are not built from literals/append in this function")
-		} else {
-			// An option that derives from the reconciled setting's own node selector only drops nodes
-			// the setting cannot match, on which it can never be in conflict.
-			n, foreign := 0, 0
-			for _, alt := range alts {
-				for _, el := range alt {
-					n++
-					if !dependsOn(el, loadOfPath(isInst, "Spec", "NodeSelector")) {
-						foreign++
-					}
-				}
-			}
-			r.Check("C18.R2", "List(NodeList) options", pos, shortFunc(e.Fn), "every node the reconciled setting can match is considered by the conflict search (no list option, or only options built from its own node selector)", foreign == 0,
-				fmt.Sprintf("%d option(s) on %d alternative(s), %d not derived from the reconciled setting's node selector", n, len(alts), foreign))
-		}
-	}
-	// arguments of the conflict search
-	{
-		cf := staticCallee(&conflictCall.Call)
-		okInst, okNodes, okList := false, false, false
-		for i, p := range cf.Params {
-			a := unwrap(conflictCall.Call.Args[i])
-			switch typeName(p.Type()) {
-			case c18SettingKind:
-				okInst = a == inst
-			case c18NodeListKind:
-				okNodes = a == unwrap(listNodes.Obj)
-			case c18SettingListKind:
-				okList = a == unwrap(listSettings.Obj)
-			}
-		}
-		r.Check("C18.R2", "arguments of the conflict search", r.Prog.Pos(conflictCall.Pos()), shortFunc(rec),
-			"the conflict search receives the reconciled setting, the listed nodes and the listed settings", okInst && okNodes && okList,
-			fmt.Sprintf("reconciled object=%v listed nodes=%v listed settings=%v", okInst, okNodes, okList))
-	}
-}
-
 // ---------------------------------------------------------------------------------------------
 // R3
-
-type c18Site struct {
-	x  ssa.Value       // pointer to the status struct being computed
-	at ssa.Instruction // where its content is taken for the write
-}
 
 type c18Tri int
 
@@ -247,311 +190,6 @@ func c18StringClass(v ssa.Value) c18Tri {
 	return c18Unknown
 }
 
-func c18WriteSites(r *Run, rec *ssa.Function, reach map[*ssa.Function]bool, updates []*Effect) []c18Site {
-	var sites []c18Site
-	for _, e := range updates {
-		g := e.Fn
-		o := unwrap(e.Obj)
-		pos := r.Prog.Pos(e.Call.Pos())
-		var whole []*ssa.Store
-		extra := ""
-		for _, rr := range refs(o) {
-			fa, ok := rr.(*ssa.FieldAddr)
-			if !ok || fieldName(fa) != "Status" {
-				continue
-			}
-			for _, r2 := range refs(fa) {
-				switch y := r2.(type) {
-				case *ssa.Store:
-					if y.Addr == ssa.Value(fa) {
-						whole = append(whole, y)
-					}
-				case *ssa.FieldAddr:
-					for _, r3 := range refs(y) {
-						if st, isSt := r3.(*ssa.Store); isSt && st.Addr == ssa.Value(y) {
-							extra = "field " + fieldName(y) + " of the written status is overwritten after the copy"
-						}
-					}
-				}
-			}
-		}
-		if len(whole) != 1 || extra != "" {
-			if extra == "" {
-				extra = fmt.Sprintf("%d whole-struct stores into the written object's Status", len(whole))
-			}
-			r.Check("C18.R3", "written status is the computed status", pos, shortFunc(g), "the object handed to Status().Update takes its Status from exactly one copy of the computed status", false, extra)
-			continue
-		}
-		st := whole[0]
-		ld, isLoad := st.Val.(*ssa.UnOp)
-		domOK := st.Block() == e.Call.Block() && instrIndex(st) < instrIndex(e.Call.(ssa.Instruction)) || (st.Block() != e.Call.Block() && st.Block().Dominates(e.Call.Block()))
-		if !isLoad || ld.Op != token.MUL || !domOK {
-			r.Check("C18.R3", "written status is the computed status", pos, shortFunc(g), "Status of the written object is a copy (*p) of the computed status made before the update", false, "stored value: "+st.Val.String())
-			continue
-		}
-		p := ld.X
-		if g == rec {
-			sites = append(sites, c18Site{x: p, at: ld})
-			r.Check("C18.R3", "written status is the computed status", pos, shortFunc(g), "Status of the written object is a copy of the computed status", true, "copied in the Reconcile function")
-			continue
-		}
-		par, isPar := p.(*ssa.Parameter)
-		if !isPar {
-			r.Undecided("C18.R3", "written status is the computed status", pos, shortFunc(g), "the copied status is neither a parameter of the writing helper nor local to Reconcile: "+p.String())
-			continue
-		}
-		cs := callSitesOf(g, reach)
-		ok := len(cs) > 0
-		for _, c := range cs {
-			if c.Parent() != rec {
-				ok = false
-				continue
-			}
-			sites = append(sites, c18Site{x: c.Common().Args[paramIndex(par)], at: c})
-		}
-		r.Check("C18.R3", "written status is the computed status", pos, shortFunc(g), "the writing helper copies its status parameter and is called only from Reconcile", ok, fmt.Sprintf("%d call site(s)", len(cs)))
-	}
-	return sites
-}
-
-type c18PathState struct {
-	status    string // "" unknown, else the constant last stored
-	statusSet bool
-	err       c18Tri
-	epoch     int
-}
-
-func c18StatusTable(r *Run, rec *ssa.Function, reach map[*ssa.Function]bool, updates []*Effect, getEff, listSettings, listNodes *Effect, conflictCall *ssa.Call) {
-	validC, ok1 := r.Prog.constStr(pkgAPI, "ExtendedDaemonsetSettingStatusValid")
-	errorC, ok2 := r.Prog.constStr(pkgAPI, "ExtendedDaemonsetSettingStatusError")
-	if !ok1 || !ok2 {
-		r.Fatal("status constants ExtendedDaemonsetSettingStatusValid/Error not found in %s", pkgAPI)
-		return
-	}
-	sites := c18WriteSites(r, rec, reach, updates)
-	if len(sites) == 0 {
-		return
-	}
-	xs := map[ssa.Value]bool{}
-	siteAt := map[ssa.Instruction]c18Site{}
-	for _, s := range sites {
-		xs[s.x] = true
-		siteAt[s.at] = s
-	}
-	if len(xs) != 1 {
-		r.Undecided("C18.R3", "status table", r.Prog.Pos(rec.Pos()), shortFunc(rec), fmt.Sprintf("%d different status objects are written", len(xs)))
-		return
-	}
-	var X ssa.Value
-	for x := range xs {
-		X = x
-	}
-	// X must only be used through field addresses, whole loads and calls (checked while walking)
-	paths, _, ok := funcPaths(rec, 5000)
-	r.paths += len(paths)
-	if !ok {
-		r.Undecided("C18.R3", "status table", r.Prog.Pos(rec.Pos()), shortFunc(rec), "path cap exceeded")
-		return
-	}
-	isSettingRoot := func(v ssa.Value) bool { return baseTypeName(v.Type()) == c18SettingKind }
-	refPath := loadOfPath(isSettingRoot, "Spec", "Reference")
-	refNamePath := loadOfPath(isSettingRoot, "Spec", "Reference", "Name")
-	nres := conflictCall.Call.Signature().Results().Len()
-	fieldOfX := func(v ssa.Value) string {
-		fa, ok := v.(*ssa.FieldAddr)
-		if !ok || fa.X != X {
-			return ""
-		}
-		return fieldName(fa)
-	}
-
-	for _, p := range paths {
-		st := &c18PathState{}
-		loadEpoch := map[ssa.Value]int{}
-		var refNil, refNameEmpty, settingsErr, nodesErr, conflictErr, getErr *bool
-		infeasible := false
-		wrote := false
-		var lastPos token.Pos
-
-		describe := func() string {
-			var t []string
-			add := func(n string, b *bool, yes, no string) {
-				if b != nil {
-					if *b {
-						t = append(t, n+"="+yes)
-					} else {
-						t = append(t, n+"="+no)
-					}
-				}
-			}
-			add("reference", refNil, "nil", "set")
-			add("reference.name", refNameEmpty, "empty", "set")
-			add("settings-list", settingsErr, "error", "ok")
-			add("node-list", nodesErr, "error", "ok")
-			add("conflict-search", conflictErr, "error", "ok")
-			return strings.Join(t, " ")
-		}
-		evaluate := func(at ssa.Instruction) {
-			wrote = true
-			fail := is(refNil, true) || is(refNameEmpty, true) || is(nodesErr, true) || is(conflictErr, true)
-			allOK := is(refNil, false) && is(refNameEmpty, false) && is(settingsErr, false) && is(nodesErr, false) && is(conflictErr, false)
-			pos := r.Prog.Pos(instrPos(at))
-			construct := "status write on path [" + describe() + "]"
-			got := fmt.Sprintf("Status=%q (stored on path: %v), Error %s", st.status, st.statusSet, st.err)
-			switch {
-			case fail:
-				r.Check("C18.R3", construct, pos, shortFunc(rec), "a failing path writes Status="+errorC+" with a non-empty Error", st.statusSet && st.status == errorC && st.err == c18NonEmpty, got)
-			case allOK:
-				r.Check("C18.R3", construct, pos, shortFunc(rec), "a path without failure writes Status="+validC+" with an empty Error", st.statusSet && st.status == validC && st.err == c18Empty, got)
-			default:
-				// Neither a known failure nor all five tests passed: some error value is not tested on
-				// this path (or the settings list failed). valid must be decided on the error values
-				// themselves, not on a by-product such as the returned name or the message.
-				isValid := st.statusSet && st.status == validC
-				var untested []string
-				for _, t := range []struct {
-					n string
-					b *bool
-				}{{"spec.reference != nil", refNil}, {"spec.reference.name != \"\"", refNameEmpty}, {"settings list error == nil", settingsErr}, {"node list error == nil", nodesErr}, {"error returned by the conflict search == nil", conflictErr}} {
-					if !is(t.b, false) {
-						untested = append(untested, t.n)
-					}
-				}
-				o := r.Check("C18.R3", construct, pos, shortFunc(rec), "Status="+validC+" is written only on a path that carries: reference set, settings list error == nil, node list error == nil, error returned by the conflict search == nil", !isValid,
-					got+"; not established on this path: "+strings.Join(untested, ", "))
-				o.Trivial = !isValid
-			}
-			if (fail || allOK) && st.statusSet && st.status == validC && st.err != c18Empty {
-				r.Check("C18.R3", construct+" valid⇒empty", pos, shortFunc(rec), "Status="+validC+" is written only with an Error shown empty after its last store", false, got)
-			}
-		}
-
-		for bi, b := range p.Blocks {
-			for _, in := range b.Instrs {
-				if in.Pos().IsValid() {
-					lastPos = in.Pos()
-				}
-				switch x := in.(type) {
-				case *ssa.Store:
-					switch fieldOfX(x.Addr) {
-					case "Status":
-						if s, isC := constString(x.Val); isC {
-							st.status, st.statusSet = s, true
-						} else {
-							st.status, st.statusSet = "", true
-						}
-					case "Error":
-						st.err = c18StringClass(x.Val)
-						st.epoch++
-					default:
-						if x.Addr == X { // whole struct overwritten
-							st.status, st.statusSet, st.err = "", true, c18Unknown
-							st.epoch++
-						}
-					}
-				case *ssa.UnOp:
-					if x.Op == token.MUL {
-						if fieldOfX(x.X) == "Error" {
-							loadEpoch[x] = st.epoch
-						}
-						if s, isSite := siteAt[in]; isSite && s.x == X {
-							evaluate(in)
-						}
-					}
-				case ssa.CallInstruction:
-					if _, isSite := siteAt[in]; isSite {
-						evaluate(in)
-						continue
-					}
-					for _, a := range x.Common().Args {
-						ua := unwrap(a)
-						if ua == X || fieldOfX(ua) != "" {
-							if !strings.HasSuffix(calleeName(x.Common()), ".DeepCopy") {
-								st.status, st.statusSet, st.err = "", true, c18Unknown
-								st.epoch++
-							}
-						}
-					}
-				}
-			}
-			if bi+1 >= len(p.Blocks) {
-				break
-			}
-			iff, isIf := b.Instrs[len(b.Instrs)-1].(*ssa.If)
-			if !isIf || b.Succs[0] == b.Succs[1] {
-				continue
-			}
-			pol := b.Succs[0] == p.Blocks[bi+1]
-			cond := resolveAlong(p.Blocks[:bi+1], iff.Cond)
-			x, y, equal, isEq := eqTruth(cond, pol)
-			if !isEq {
-				continue
-			}
-			if isNilConst(y) || isNilConst(x) {
-				v := x
-				if isNilConst(x) {
-					v = y
-				}
-				e := equal
-				ne := !equal
-				switch {
-				case refPath(v):
-					refNil = &e
-				case v == ssa.Value(callValue(listSettings.Call)):
-					settingsErr = &ne
-				case v == ssa.Value(callValue(listNodes.Call)):
-					nodesErr = &ne
-				case v == ssa.Value(callValue(getEff.Call)):
-					getErr = &ne
-				default:
-					if ex, isEx := v.(*ssa.Extract); isEx && ex.Tuple == ssa.Value(conflictCall) && ex.Index == nres-1 {
-						conflictErr = &ne
-					} else if nres == 1 && v == ssa.Value(conflictCall) {
-						conflictErr = &ne
-					}
-				}
-				continue
-			}
-			var other ssa.Value
-			if s, isC := constString(y); isC && s == "" {
-				other = x
-			} else if s, isC := constString(x); isC && s == "" {
-				other = y
-			}
-			if other == nil {
-				continue
-			}
-			e := equal
-			if refNamePath(other) {
-				refNameEmpty = &e
-				continue
-			}
-			if ld, isLd := other.(*ssa.UnOp); isLd && ld.Op == token.MUL && fieldOfX(ld.X) == "Error" {
-				if ep, seen := loadEpoch[ld]; seen && ep == st.epoch {
-					if (st.err == c18Empty && !equal) || (st.err == c18NonEmpty && equal) {
-						infeasible = true
-						break
-					}
-					if equal {
-						st.err = c18Empty
-					} else {
-						st.err = c18NonEmpty
-					}
-				}
-			}
-		}
-		if infeasible || is(getErr, true) {
-			continue
-		}
-		if !wrote {
-			fail := is(refNil, true) || is(refNameEmpty, true) || is(nodesErr, true) || is(conflictErr, true)
-			if fail {
-				r.Check("C18.R3", "no status write on path ["+describe()+"]", r.Prog.Pos(lastPos), shortFunc(rec), "a failing path reaches the status write (the setting must end in error)", false, "the path returns without handing the computed status to the status update")
-			}
-		}
-	}
-}
-
 // callValue returns the call instruction as a value (nil for go/defer).
 func callValue(ci ssa.CallInstruction) *ssa.Call {
 	c, _ := ci.(*ssa.Call)
@@ -597,6 +235,7 @@ type c18Match struct {
 	call      *ssa.Call
 	eRoot     ssa.Value // root of the setting whose selector is used
 	nRoot     ssa.Value // root of the node whose labels are matched
+	byParam   bool      // nRoot is a labels parameter of the scan helper
 	converter string
 }
 
@@ -624,6 +263,14 @@ func c18MatchInfo(v ssa.Value) (*c18Match, bool) {
 	}
 	lab := unwrap(c.Call.Args[0])
 	var nRoot ssa.Value
+	if lp, isPar := lab.(*ssa.Parameter); isPar {
+		// the labels of the node are handed in (scan extracted into a helper): the caller is checked
+		// to pass the labels and the name of one node
+		if mt, isM := lp.Type().Underlying().(*types.Map); isM && types.Identical(mt.Elem(), types.Typ[types.String]) {
+			return &c18Match{call: c, eRoot: eRoot, nRoot: lp, byParam: true, converter: calleeName(&conv.Call)}, true
+		}
+		return nil, false
+	}
 	if lc, isCall := lab.(*ssa.Call); isCall && strings.HasSuffix(calleeName(&lc.Call), ".GetLabels") {
 		if lc.Call.IsInvoke() {
 			nRoot = unwrap(lc.Call.Value)
@@ -651,6 +298,8 @@ type c18Scan struct {
 	k         *keyer
 	eID       string
 	pInst     *ssa.Parameter
+	// scan extracted into a helper: the record map, the node's name and labels are parameters
+	mapParam, nameParam, labelsParam *ssa.Parameter
 }
 
 func c18NameOfRoot(k *keyer, v ssa.Value, ident string, typ string) bool {
@@ -709,21 +358,41 @@ func c18ConflictSearch(r *Run, cf *ssa.Function) *c18Scan {
 			}
 		}
 	}
-	if len(maps) != 1 {
-		r.Undecided("C18.R4", "record of matched nodes", pos, fnName, fmt.Sprintf("expected one local map keyed by node name recording the settings already matched, found %d (other data structures are not analysed)", len(maps)))
+	var M ssa.Value
+	var mapParam *ssa.Parameter
+	if len(maps) == 1 {
+		M = maps[0]
+	} else if len(maps) == 0 {
+		for _, p := range cf.Params {
+			if mt, isM := p.Type().Underlying().(*types.Map); isM && types.Identical(mt.Key(), types.Typ[types.String]) && types.Identical(mt.Elem(), types.Typ[types.String]) {
+				if _, named := p.Type().(*types.Named); named {
+					continue // labels.Set and the like are not the record
+				}
+				if mapParam != nil {
+					mapParam = nil
+					break
+				}
+				mapParam = p
+			}
+		}
+		if mapParam != nil {
+			M = mapParam
+		}
+	}
+	if M == nil {
+		r.Undecided("C18.R4", "record of matched nodes", pos, fnName, fmt.Sprintf("expected one map keyed by node name (local, or a parameter of the scan helper) recording the settings already matched; found %d local maps (other data structures are not analysed)", len(maps)))
 		return nil
 	}
-	M := maps[0]
 	var lookups []*ssa.Lookup
 	var updates []*ssa.MapUpdate
 	for _, rr := range refs(M) {
 		switch x := rr.(type) {
 		case *ssa.Lookup:
-			if x.X == ssa.Value(M) {
+			if x.X == M {
 				lookups = append(lookups, x)
 			}
 		case *ssa.MapUpdate:
-			if x.Map == ssa.Value(M) {
+			if x.Map == M {
 				updates = append(updates, x)
 			}
 		case *ssa.DebugRef:
@@ -802,7 +471,22 @@ func c18ConflictSearch(r *Run, cf *ssa.Function) *c18Scan {
 		}
 	}
 
-	keyIsNode := func(v ssa.Value) bool { return c18NameOfRoot(k, v, nID, pkgCoreV1+".Node") }
+	var nameParam *ssa.Parameter
+	keyIsNode := func(v ssa.Value) bool {
+		if mi.byParam {
+			// the node is given by (name, labels) parameters: the key must be the one string
+			// parameter used as the node's name; the pairing is checked at the call site
+			kp, isP := unwrap(v).(*ssa.Parameter)
+			if !isP || !types.Identical(kp.Type().Underlying(), types.Typ[types.String]) {
+				return false
+			}
+			if nameParam == nil {
+				nameParam = kp
+			}
+			return nameParam == kp
+		}
+		return c18NameOfRoot(k, v, nID, pkgCoreV1+".Node")
+	}
 	r.Check("C18.R4", "look-up key", r.Prog.Pos(instrPos(L)), fnName, "the record is looked up under the name of the node whose labels were matched", keyIsNode(L.Index), "key: "+pathString(L.Index))
 
 	eDef, nDef := c18IdentDef(mi.eRoot), c18IdentDef(mi.nRoot)
@@ -838,11 +522,15 @@ func c18ConflictSearch(r *Run, cf *ssa.Function) *c18Scan {
 			o.Trivial = true
 			continue
 		}
-		if !keyIsNode(u.Key) || loopN == nil {
+		if !keyIsNode(u.Key) || (loopN == nil && !mi.byParam) {
 			r.Undecided("C18.R4", "other write to the record", upos, fnName, "a write to the record that is neither the match record nor keyed by the current node's name")
 			continue
 		}
-		leak := reachesAvoiding(u, L, loopN.Header)
+		var avoid *ssa.BasicBlock
+		if loopN != nil {
+			avoid = loopN.Header
+		}
+		leak := reachesAvoiding(u, L, avoid)
 		detail := "reaches the look-up only after the next node is taken"
 		if leak {
 			detail = "the entry written here would be found by the look-up while the same node is still being scanned"
@@ -944,7 +632,20 @@ func c18ConflictSearch(r *Run, cf *ssa.Function) *c18Scan {
 		r.Undecided("C18.R1", "scanned slice", pos, fnName, "the scanned setting is not an element of a slice: "+mi.eRoot.String())
 		return nil
 	}
-	return &c18Scan{slice: sl.X, loopE: loopE, converter: mi.converter, skips: skips, k: k, eID: eID, pInst: pInst}
+	sc := &c18Scan{slice: sl.X, loopE: loopE, converter: mi.converter, skips: skips, k: k, eID: eID, pInst: pInst}
+	if mi.byParam {
+		sc.labelsParam, _ = mi.nRoot.(*ssa.Parameter)
+		sc.nameParam = nameParam
+		sc.mapParam = mapParam
+		if sc.nameParam == nil || sc.mapParam == nil {
+			r.Undecided("C18.R4", "scan helper", pos, fnName, "the node's labels are a parameter but the record map / the node's name are not parameters of the same helper")
+			return nil
+		}
+	} else if mapParam != nil {
+		r.Undecided("C18.R4", "scan helper", pos, fnName, "the record map is a parameter while the node is local")
+		return nil
+	}
+	return sc
 }
 
 func c18Flags(m, ne, fd bool) string {
@@ -1426,20 +1127,23 @@ func c18Consumer(r *Run, converter string) {
 	}
 	attachCalls := map[ssa.Instruction]bool{}
 	scanned := map[ssa.Value]*ssa.Function{}
-	for _, s := range sites {
-		attachCalls[s.at] = true
-		ff := computeFacts(s.fn)
+	type leaf struct {
+		v     ssa.Value
+		facts factSet
+	}
+	// sel checks that every non-nil value val can hold where it is used (block use of fn) was
+	// selected under valid ∧ matches for the node accepted by nodeOK; a value produced by a
+	// repository helper is followed into the helper's returns (its node and slice parameters are
+	// mapped back to the call's arguments).
+	var sel func(fn *ssa.Function, val ssa.Value, use *ssa.BasicBlock, at ssa.Instruction, nodeOK func(k *keyer, nRoot ssa.Value) bool, sliceOut func(v ssa.Value, in *ssa.Function), depth int) int
+	sel = func(fn *ssa.Function, val ssa.Value, use *ssa.BasicBlock, at ssa.Instruction, nodeOK func(k *keyer, nRoot ssa.Value) bool, sliceOut func(v ssa.Value, in *ssa.Function), depth int) int {
+		ff := computeFacts(fn)
 		k := ff.K
-		nodeID := c18Ident(k, s.node)
-		type leaf struct {
-			v     ssa.Value
-			facts factSet
-		}
 		var leaves []leaf
 		seen := map[ssa.Value]bool{}
-		// A phi at the header of a loop that encloses the attach site merges, on its back edges, the
-		// value of the previous iteration (another node): such a value was not selected for this node.
-		headers := enclosingLoopHeaders(s.fn, s.at.Block())
+		// A phi at the header of a loop that encloses the use merges, on its back edges, the value of
+		// the previous iteration (another node): such a value was not selected for this node.
+		headers := enclosingLoopHeaders(fn, use)
 		carried := ""
 		var walk func(v ssa.Value, facts factSet)
 		walk = func(v ssa.Value, facts factSet) {
@@ -1462,8 +1166,9 @@ func c18Consumer(r *Run, converter string) {
 			}
 			leaves = append(leaves, leaf{v, facts})
 		}
-		walk(s.val, ff.At(s.at.Block()))
-		r.Check("C18.R5", "setting selected in this iteration", r.Prog.Pos(instrPos(s.at)), shortFunc(s.fn),
+		walk(val, ff.At(use))
+		pos := r.Prog.Pos(instrPos(at))
+		r.Check("C18.R5", "setting selected in this iteration", pos, shortFunc(fn),
 			"the setting attached to a node item is selected for this node in this iteration of the enclosing loops (not carried over from the previous node)", carried == "", carried)
 		nonNil := 0
 		for _, l := range leaves {
@@ -1471,14 +1176,55 @@ func c18Consumer(r *Run, converter string) {
 				continue
 			}
 			nonNil++
-			pos := r.Prog.Pos(instrPos(s.at))
+			// produced by a repository helper: follow its returns
+			var hc *ssa.Call
+			hidx := 0
+			switch y := unwrap(l.v).(type) {
+			case *ssa.Call:
+				hc = y
+			case *ssa.Extract:
+				hc, _ = y.Tuple.(*ssa.Call)
+				hidx = y.Index
+			}
+			if hc != nil {
+				h := staticCallee(&hc.Call)
+				if h == nil || !r.Prog.IsRuleSite(h) || depth >= 2 {
+					r.Undecided("C18.R5", "setting attached to a node item", pos, shortFunc(fn), "attached value is produced by a call the rule does not follow: "+hc.String())
+					continue
+				}
+				argOf := func(v ssa.Value) ssa.Value {
+					if p, ok := v.(*ssa.Parameter); ok && p.Parent() == h {
+						return hc.Call.Args[paramIndex(p)]
+					}
+					return nil
+				}
+				for _, b := range h.Blocks {
+					ret := returnOf(b)
+					if ret == nil || hidx >= len(ret.Results) {
+						continue
+					}
+					sel(h, ret.Results[hidx], b, ret,
+						func(_ *keyer, nRoot ssa.Value) bool {
+							a := argOf(nRoot)
+							return a != nil && nodeOK(k, a)
+						},
+						func(v ssa.Value, in *ssa.Function) {
+							if a := argOf(v); a != nil {
+								sliceOut(a, fn)
+							} else {
+								sliceOut(v, in)
+							}
+						}, depth+1)
+				}
+				continue
+			}
 			root, pth := accessPath(l.v)
 			if len(pth) != 0 || baseTypeName(root.Type()) != c18SettingKind {
-				r.Undecided("C18.R5", "setting attached to a node item", pos, shortFunc(s.fn), "attached value is not an element of the scanned settings: "+l.v.String())
+				r.Undecided("C18.R5", "setting attached to a node item", pos, shortFunc(fn), "attached value is not an element of the scanned settings: "+l.v.String())
 				continue
 			}
 			if _, isPar := root.(*ssa.Parameter); isPar {
-				r.Undecided("C18.R5", "setting attached to a node item", pos, shortFunc(s.fn), "attached setting is a parameter; the guard is not visible in this function")
+				r.Undecided("C18.R5", "setting attached to a node item", pos, shortFunc(fn), "attached setting is a parameter; the guard is not visible in this function")
 				continue
 			}
 			eID := c18Ident(k, root)
@@ -1491,24 +1237,34 @@ func c18Consumer(r *Run, converter string) {
 			conv := ""
 			matches := l.facts.any(true, func(v ssa.Value, _ string) bool {
 				m, ok := c18MatchInfo(v)
-				if ok && c18Ident(k, m.eRoot) == eID && c18Ident(k, m.nRoot) == nodeID {
+				if ok && c18Ident(k, m.eRoot) == eID && nodeOK(k, m.nRoot) {
 					conv = m.converter
 					return true
 				}
 				return false
 			})
-			r.Check("C18.R5", "attach only valid settings", pos, shortFunc(s.fn), "a setting is attached to a node item only under Status.Status == "+validC+" of that setting", valid, "facts where the value is selected: "+l.facts.String())
-			r.Check("C18.R5", "attach only matching settings", pos, shortFunc(s.fn), "a setting is attached only when its own node selector matches the labels of the node of the same item", matches, "facts where the value is selected: "+l.facts.String())
+			r.Check("C18.R5", "attach only valid settings", pos, shortFunc(fn), "a setting is attached to a node item only under Status.Status == "+validC+" of that setting", valid, "facts where the value is selected: "+l.facts.String())
+			r.Check("C18.R5", "attach only matching settings", pos, shortFunc(fn), "a setting is attached only when its own node selector matches the labels of the node of the same item", matches, "facts where the value is selected: "+l.facts.String())
 			if matches && converter != "" {
-				r.Check("C18.R5", "same selector conversion as the conflict search", pos, shortFunc(s.fn), "consumer and conflict search convert the node selector with the same function", conv == converter, conv+" vs "+converter)
+				r.Check("C18.R5", "same selector conversion as the conflict search", pos, shortFunc(fn), "consumer and conflict search convert the node selector with the same function", conv == converter, conv+" vs "+converter)
 			}
 			if ia, isIA := root.(*ssa.IndexAddr); isIA {
-				scanned[ia.X] = s.fn
+				sliceOut(ia.X, fn)
 			} else {
-				r.Undecided("C18.R5", "scanned settings", pos, shortFunc(s.fn), "attached setting is not an element of a slice")
+				r.Undecided("C18.R5", "scanned settings", pos, shortFunc(fn), "attached setting is not an element of a slice")
 			}
 		}
-		if nonNil == 0 {
+		return nonNil
+	}
+	for _, s := range sites {
+		attachCalls[s.at] = true
+		s := s
+		nodeKeyer := computeFacts(s.fn).K
+		nodeID := c18Ident(nodeKeyer, s.node)
+		n := sel(s.fn, s.val, s.at.Block(), s.at,
+			func(k *keyer, nRoot ssa.Value) bool { return c18Ident(nodeKeyer, nRoot) == nodeID },
+			func(v ssa.Value, in *ssa.Function) { scanned[v] = in }, 0)
+		if n == 0 {
 			o := r.Check("C18.R5", "setting attached to a node item", r.Prog.Pos(instrPos(s.at)), shortFunc(s.fn), "no setting attached here", true, "")
 			o.Trivial = true
 		}
@@ -1567,6 +1323,7 @@ func c18Consumer(r *Run, converter string) {
 // elements of a namespace-restricted settings list appended under Spec.Reference.Name == eds.Name.
 func c18ReferenceFilter(r *Run, fn *ssa.Function, s ssa.Value) {
 	build := fn
+	var buildCall *ssa.Call
 	var results []ssa.Value
 	for _, o := range origins(s) {
 		var c *ssa.Call
@@ -1587,6 +1344,7 @@ func c18ReferenceFilter(r *Run, fn *ssa.Function, s ssa.Value) {
 			return
 		}
 		build = cal
+		buildCall = c
 		for _, b := range cal.Blocks {
 			if ret := returnOf(b); ret != nil && idx < len(ret.Results) {
 				results = append(results, ret.Results[idx])
@@ -1613,8 +1371,44 @@ func c18ReferenceFilter(r *Run, fn *ssa.Function, s ssa.Value) {
 			pEDS = p
 		}
 	}
-	if pEDS == nil {
-		r.Undecided("C18.R5", "scanned settings", pos, shortFunc(build), "no ExtendedDaemonSet parameter to filter the settings by")
+	// The ExtendedDaemonSet whose namespace/name filter the settings: a parameter of the builder, or
+	// (builder taking plain strings) the object whose Namespace / Name the caller passes.
+	isEDSVal := func(x ssa.Value) bool { return isPtrToNamed(x.Type(), pkgAPI, "ExtendedDaemonSet") }
+	var nsRoot, nameRoot ssa.Value
+	isNS := func(v ssa.Value) bool { return false }
+	isName := func(v ssa.Value) bool { return false }
+	if pEDS != nil {
+		isNS, isName = namespaceOf(isParam(pEDS)), nameOf(isParam(pEDS))
+		nsRoot, nameRoot = pEDS, pEDS
+	} else if buildCall != nil {
+		argOf := func(v ssa.Value) ssa.Value {
+			if p, ok := unwrap(v).(*ssa.Parameter); ok && p.Parent() == build {
+				return buildCall.Call.Args[paramIndex(p)]
+			}
+			return nil
+		}
+		isNS = func(v ssa.Value) bool {
+			a := argOf(v)
+			return a != nil && namespaceOf(func(x ssa.Value) bool {
+				if isEDSVal(x) {
+					nsRoot = x
+					return true
+				}
+				return false
+			})(a)
+		}
+		isName = func(v ssa.Value) bool {
+			a := argOf(v)
+			return a != nil && nameOf(func(x ssa.Value) bool {
+				if isEDSVal(x) {
+					nameRoot = x
+					return true
+				}
+				return false
+			})(a)
+		}
+	} else {
+		r.Undecided("C18.R5", "scanned settings", pos, shortFunc(build), "no ExtendedDaemonSet (parameter, or namespace/name arguments) to filter the settings by")
 		return
 	}
 	// namespace
@@ -1626,7 +1420,7 @@ func c18ReferenceFilter(r *Run, fn *ssa.Function, s ssa.Value) {
 	for i, alt := range alts {
 		has := false
 		for _, el := range alt {
-			if o := classifyListOption(el); o.kind == "namespace" && o.ns != nil && namespaceOf(isParam(pEDS))(o.ns) {
+			if o := classifyListOption(el); o.kind == "namespace" && o.ns != nil && isNS(o.ns) {
 				has = true
 			}
 		}
@@ -1670,8 +1464,11 @@ func c18ReferenceFilter(r *Run, fn *ssa.Function, s ssa.Value) {
 						ar, apth := accessPath(a)
 						m := len(apth)
 						return m >= 3 && apth[m-1] == "Name" && apth[m-2] == "Reference" && apth[m-3] == "Spec" && c18Ident(k, ar) == eID
-					}, nameOf(isParam(pEDS)))
+					}, isName)
 				})
+				if byRef && nsRoot != nil && nameRoot != nil && nsRoot != nameRoot {
+					byRef = false // namespace and name of two different objects
+				}
 				r.Check("C18.R5", "reference filter", apos, shortFunc(build), "only settings of the listed namespace whose Spec.Reference.Name equals the ExtendedDaemonSet's name are scanned", fromList && byRef,
 					fmt.Sprintf("element of the listed items=%v; appended under Reference.Name==eds.Name=%v", fromList, byRef))
 			}
@@ -1680,4 +1477,539 @@ func c18ReferenceFilter(r *Run, fn *ssa.Function, s ssa.Value) {
 	if n == 0 {
 		r.Check("C18.R5", "reference filter", pos, shortFunc(build), "the scanned settings are appended under the reference filter", false, "no appended element found")
 	}
+}
+
+// ---------------------------------------------------------------------------------------------
+// R2 (objects are followed through helper parameters and results)
+
+func c18ListScope(r *Run, rec *ssa.Function, reach map[*ssa.Function]bool, getEff, listSettings, listNodes *Effect, conflictCall *ssa.Call) {
+	follow := func(f *ssa.Function) bool { return reach[f] && r.Prog.IsRuleSite(f) }
+	callers := func(f *ssa.Function) []ssa.CallInstruction { return callSitesOf(f, reach) }
+	instA := aliasClosure(unwrap(getEff.Obj), follow, callers)
+	nodesA := aliasClosure(unwrap(listNodes.Obj), follow, callers)
+	listA := aliasClosure(unwrap(listSettings.Obj), follow, callers)
+	isInst := func(v ssa.Value) bool { return instA[v] }
+	// settings list: namespace of the reconciled object on every alternative
+	{
+		e := listSettings
+		pos := r.Prog.Pos(e.Call.Pos())
+		args := e.Call.Common().Args
+		alts, ok := sliceAlternatives(args[len(args)-1])
+		if !ok || len(alts) == 0 {
+			r.Undecided("C18.R2", "List(ExtendedDaemonsetSettingList) options", pos, shortFunc(e.Fn), "list options are not built from literals/append in this function")
+		}
+		for i, alt := range alts {
+			has := false
+			var descs []string
+			for _, el := range alt {
+				o := classifyListOption(el)
+				descs = append(descs, o.desc)
+				if o.kind == "namespace" && o.ns != nil && namespaceOf(isInst)(o.ns) {
+					has = true
+				}
+			}
+			r.Check("C18.R2", fmt.Sprintf("List(ExtendedDaemonsetSettingList) options alt%d", i), pos, shortFunc(e.Fn),
+				"settings are listed in the namespace of the reconciled setting (names are the tie-break of the conflict order and are unique only per namespace)", has,
+				"options: ["+strings.Join(descs, ", ")+"]")
+		}
+	}
+	// node list: unfiltered
+	{
+		e := listNodes
+		pos := r.Prog.Pos(e.Call.Pos())
+		args := e.Call.Common().Args
+		alts, ok := sliceAlternatives(args[len(args)-1])
+		if !ok {
+			r.Undecided("C18.R2", "List(NodeList) options", pos, shortFunc(e.Fn), "list options are not built from literals/append in this function")
+		} else {
+			// An option that derives from the reconciled setting's own node selector only drops nodes
+			// the setting cannot match, on which it can never be in conflict.
+			n, foreign := 0, 0
+			for _, alt := range alts {
+				for _, el := range alt {
+					n++
+					if !dependsOn(el, loadOfPath(isInst, "Spec", "NodeSelector")) {
+						foreign++
+					}
+				}
+			}
+			r.Check("C18.R2", "List(NodeList) options", pos, shortFunc(e.Fn), "every node the reconciled setting can match is considered by the conflict search (no list option, or only options built from its own node selector)", foreign == 0,
+				fmt.Sprintf("%d option(s) on %d alternative(s), %d not derived from the reconciled setting's node selector", n, len(alts), foreign))
+		}
+	}
+	// arguments of the conflict search
+	{
+		cf := staticCallee(&conflictCall.Call)
+		okInst, okNodes, okList := false, false, false
+		for i, p := range cf.Params {
+			a := unwrap(conflictCall.Call.Args[i])
+			switch typeName(p.Type()) {
+			case c18SettingKind:
+				okInst = instA[a]
+			case c18NodeListKind:
+				okNodes = nodesA[a]
+			case c18SettingListKind:
+				okList = listA[a]
+			}
+		}
+		r.Check("C18.R2", "arguments of the conflict search", r.Prog.Pos(conflictCall.Pos()), shortFunc(conflictCall.Parent()),
+			"the conflict search receives the reconciled setting, the listed nodes and the listed settings", okInst && okNodes && okList,
+			fmt.Sprintf("reconciled object=%v listed nodes=%v listed settings=%v", okInst, okNodes, okList))
+	}
+}
+
+// ---------------------------------------------------------------------------------------------
+// R3 on the inlined paths of Reconcile
+
+type c18IV struct {
+	c *icall
+	v ssa.Value
+}
+
+type c18PathState struct {
+	status    string // "" unknown, else the constant last stored
+	statusSet bool
+	err       c18Tri
+	epoch     int
+}
+
+func c18IsNamedPtr(t types.Type, name string) bool {
+	return isPtrToNamed(t, pkgAPI, name)
+}
+
+func c18StatusTable(r *Run, rec *ssa.Function, reach map[*ssa.Function]bool, updates []*Effect, getEff, listSettings, listNodes *Effect, conflictCall *ssa.Call) {
+	validC, ok1 := r.Prog.constStr(pkgAPI, "ExtendedDaemonsetSettingStatusValid")
+	errorC, ok2 := r.Prog.constStr(pkgAPI, "ExtendedDaemonsetSettingStatusError")
+	if !ok1 || !ok2 {
+		r.Fatal("status constants ExtendedDaemonsetSettingStatusValid/Error not found in %s", pkgAPI)
+		return
+	}
+	cf := staticCallee(&conflictCall.Call)
+	isUpdate := map[ssa.Instruction]*Effect{}
+	for _, e := range updates {
+		isUpdate[e.Call] = e
+	}
+	// static shape of every writer: the written object's Status is one whole copy of a status value
+	for _, e := range updates {
+		o := unwrap(e.Obj)
+		pos := r.Prog.Pos(e.Call.Pos())
+		whole, extra := 0, ""
+		for _, rr := range refs(o) {
+			fa, ok := rr.(*ssa.FieldAddr)
+			if !ok || fieldName(fa) != "Status" {
+				continue
+			}
+			for _, r2 := range refs(fa) {
+				switch y := r2.(type) {
+				case *ssa.Store:
+					if y.Addr == ssa.Value(fa) {
+						whole++
+						if ld, isLd := y.Val.(*ssa.UnOp); !isLd || ld.Op != token.MUL {
+							extra = "Status of the written object is stored from " + y.Val.String()
+						}
+					}
+				case *ssa.FieldAddr:
+					for _, r3 := range refs(y) {
+						if st, isSt := r3.(*ssa.Store); isSt && st.Addr == ssa.Value(y) {
+							extra = "field " + fieldName(y) + " of the written status is overwritten after the copy"
+						}
+					}
+				}
+			}
+		}
+		if whole != 1 && extra == "" {
+			extra = fmt.Sprintf("%d whole-struct stores into the written object's Status", whole)
+		}
+		r.Check("C18.R3", "written status is the computed status", pos, shortFunc(e.Fn), "the object handed to Status().Update takes its Status from exactly one copy (*p) of the computed status", extra == "", extra)
+	}
+
+	paths, ok := enumIPaths(rec, samePkgInliner(r.Prog, rec, map[*ssa.Function]bool{cf: true}), 20000)
+	r.paths += len(paths)
+	if !ok {
+		r.Undecided("C18.R3", "status table", r.Prog.Pos(rec.Pos()), shortFunc(rec), "path cap exceeded")
+		return
+	}
+	getObj := unwrap(getEff.Obj)
+	nres := conflictCall.Call.Signature().Results().Len()
+	isReader := func(name string) bool {
+		return strings.HasSuffix(name, ".DeepCopy") || strings.HasSuffix(name, ".DeepEqual") || strings.HasPrefix(name, "(github.com/go-logr/logr.") || strings.HasPrefix(name, "fmt.")
+	}
+
+	for _, p := range paths {
+		states := map[c18IV]*c18PathState{}
+		stateOf := func(iv c18IV) *c18PathState {
+			if states[iv] == nil {
+				states[iv] = &c18PathState{}
+			}
+			return states[iv]
+		}
+		// status pointer identity of a field address base
+		statusBase := func(c *icall, fa *ssa.FieldAddr) (c18IV, bool) {
+			if !c18IsNamedPtr(fa.X.Type(), "ExtendedDaemonsetSettingStatus") {
+				return c18IV{}, false
+			}
+			bc, bv := iunwrap(c, fa.X)
+			return c18IV{bc, bv}, true
+		}
+		type loadKey struct {
+			c  *icall
+			in ssa.Instruction
+		}
+		loadEpoch := map[loadKey]int{}
+		snaps := map[loadKey]c18PathState{}
+		pending := map[c18IV]c18PathState{}
+		var refNil, refNameEmpty, settingsErr, nodesErr, conflictErr, getErr *bool
+		infeasible, wrote := false, false
+		var lastPos token.Pos
+
+		describe := func() string {
+			var t []string
+			add := func(n string, b *bool, yes, no string) {
+				if b != nil {
+					if *b {
+						t = append(t, n+"="+yes)
+					} else {
+						t = append(t, n+"="+no)
+					}
+				}
+			}
+			add("reference", refNil, "nil", "set")
+			add("reference.name", refNameEmpty, "empty", "set")
+			add("settings-list", settingsErr, "error", "ok")
+			add("node-list", nodesErr, "error", "ok")
+			add("conflict-search", conflictErr, "error", "ok")
+			return strings.Join(t, " ")
+		}
+		evaluate := func(at ssa.Instruction, st c18PathState, known bool) {
+			wrote = true
+			fail := is(refNil, true) || is(refNameEmpty, true) || is(nodesErr, true) || is(conflictErr, true)
+			allOK := is(refNil, false) && is(refNameEmpty, false) && is(settingsErr, false) && is(nodesErr, false) && is(conflictErr, false)
+			pos := r.Prog.Pos(instrPos(at))
+			construct := "status write on path [" + describe() + "]"
+			if !known {
+				r.Undecided("C18.R3", construct, pos, shortFunc(at.Parent()), "the status handed to Status().Update is not a copy of a status value computed on this path")
+				return
+			}
+			got := fmt.Sprintf("Status=%q (stored on path: %v), Error %s", st.status, st.statusSet, st.err)
+			switch {
+			case fail:
+				r.Check("C18.R3", construct, pos, shortFunc(rec), "a failing path writes Status="+errorC+" with a non-empty Error", st.statusSet && st.status == errorC && st.err == c18NonEmpty, got)
+			case allOK:
+				r.Check("C18.R3", construct, pos, shortFunc(rec), "a path without failure writes Status="+validC+" with an empty Error", st.statusSet && st.status == validC && st.err == c18Empty, got)
+			default:
+				isValid := st.statusSet && st.status == validC
+				var untested []string
+				for _, t := range []struct {
+					n string
+					b *bool
+				}{{"spec.reference != nil", refNil}, {"spec.reference.name != \"\"", refNameEmpty}, {"settings list error == nil", settingsErr}, {"node list error == nil", nodesErr}, {"error returned by the conflict search == nil", conflictErr}} {
+					if !is(t.b, false) {
+						untested = append(untested, t.n)
+					}
+				}
+				o := r.Check("C18.R3", construct, pos, shortFunc(rec), "Status="+validC+" is written only on a path that carries: reference set, settings list error == nil, node list error == nil, error returned by the conflict search == nil", !isValid,
+					got+"; not established on this path: "+strings.Join(untested, ", "))
+				o.Trivial = !isValid
+			}
+			if (fail || allOK) && st.statusSet && st.status == validC && st.err != c18Empty {
+				r.Check("C18.R3", construct+" valid⇒empty", pos, shortFunc(rec), "Status="+validC+" is written only with an Error shown empty after its last store", false, got)
+			}
+		}
+		branchFact := func(br ibranch) {
+			bc, x, y, equal, isEq := ieq(br)
+			if !isEq {
+				// "nothing to write": the stored status of the reconciled object already equals the
+				// computed one — the computed status is what the object keeps, so it is evaluated here
+				cc, bv, pol := ibool(br)
+				if call, isCall := bv.(*ssa.Call); isCall && pol && strings.HasSuffix(calleeName(&call.Call), ".DeepEqual") && len(call.Call.Args) >= 2 {
+					args := call.Call.Args[len(call.Call.Args)-2:]
+					for k := 0; k < 2; k++ {
+						ac, av := iunwrap(cc, args[k])
+						oc, ov := iunwrap(cc, args[1-k])
+						_, root, f := iaccess(oc, ov)
+						if st, tracked := states[c18IV{ac, av}]; tracked && root == getObj && len(f) == 1 && f[0] == "Status" {
+							evaluate(call, *st, true)
+						}
+					}
+				}
+				return
+			}
+			if iisNil(bc, x) || iisNil(bc, y) {
+				v := x
+				if iisNil(bc, x) {
+					v = y
+				}
+				cv, vv := iunwrap(bc, v)
+				e, ne := equal, !equal
+				switch {
+				case vv == ssa.Value(callValue(listSettings.Call)):
+					settingsErr = &ne
+				case vv == ssa.Value(callValue(listNodes.Call)):
+					nodesErr = &ne
+				case vv == ssa.Value(callValue(getEff.Call)):
+					getErr = &ne
+				default:
+					if ex, isEx := vv.(*ssa.Extract); isEx && ex.Tuple == ssa.Value(conflictCall) && ex.Index == nres-1 {
+						conflictErr = &ne
+					} else if nres == 1 && vv == ssa.Value(conflictCall) {
+						conflictErr = &ne
+					} else if _, root, f := iaccess(cv, vv); root == getObj && len(f) == 2 && f[0] == "Spec" && f[1] == "Reference" {
+						refNil = &e
+					}
+				}
+				return
+			}
+			var other ssa.Value
+			if s, isC := iconstString(bc, y); isC && s == "" {
+				other = x
+			} else if s, isC := iconstString(bc, x); isC && s == "" {
+				other = y
+			}
+			if other == nil {
+				return
+			}
+			e := equal
+			oc, ov := iunwrap(bc, other)
+			if _, root, f := iaccess(oc, ov); root == getObj && len(f) == 3 && f[0] == "Spec" && f[1] == "Reference" && f[2] == "Name" {
+				refNameEmpty = &e
+				return
+			}
+			if ld, isLd := ov.(*ssa.UnOp); isLd && ld.Op == token.MUL {
+				if fa, isFA := ld.X.(*ssa.FieldAddr); isFA && fieldName(fa) == "Error" {
+					if iv, okB := statusBase(oc, fa); okB {
+						st := stateOf(iv)
+						if ep, seen := loadEpoch[loadKey{oc, ld}]; seen && ep == st.epoch {
+							if (st.err == c18Empty && !equal) || (st.err == c18NonEmpty && equal) {
+								infeasible = true
+								return
+							}
+							if equal {
+								st.err = c18Empty
+							} else {
+								st.err = c18NonEmpty
+							}
+						}
+					}
+				}
+			}
+		}
+
+		bi := 0
+		for i := 0; i <= len(p.events) && !infeasible; i++ {
+			for bi < len(p.branches) && p.branches[bi].at <= i {
+				branchFact(p.branches[bi])
+				bi++
+				if infeasible {
+					break
+				}
+			}
+			if i == len(p.events) || infeasible {
+				break
+			}
+			ev := p.events[i]
+			if ev.in.Pos().IsValid() {
+				lastPos = ev.in.Pos()
+			}
+			switch y := ev.in.(type) {
+			case *ssa.Store:
+				if fa, isFA := y.Addr.(*ssa.FieldAddr); isFA {
+					if iv, okB := statusBase(ev.c, fa); okB {
+						st := stateOf(iv)
+						switch fieldName(fa) {
+						case "Status":
+							if s, isC := iconstString(ev.c, y.Val); isC {
+								st.status, st.statusSet = s, true
+							} else {
+								st.status, st.statusSet = "", true
+							}
+						case "Error":
+							_, vv := iunwrap(ev.c, y.Val)
+							st.err = c18StringClass(vv)
+							st.epoch++
+						}
+						continue
+					}
+					// copy of a computed status into the object to be written
+					if fieldName(fa) == "Status" && c18IsNamedPtr(fa.X.Type(), "ExtendedDaemonsetSetting") {
+						oc, ov := iunwrap(ev.c, fa.X)
+						if ld, isLd := y.Val.(*ssa.UnOp); isLd && ld.Op == token.MUL {
+							if sn, has := snaps[loadKey{ev.c, ld}]; has {
+								pending[c18IV{oc, ov}] = sn
+							}
+						}
+					}
+					continue
+				}
+				if c18IsNamedPtr(y.Addr.Type(), "ExtendedDaemonsetSettingStatus") { // *p = ...
+					bc, bv := iunwrap(ev.c, y.Addr)
+					st := stateOf(c18IV{bc, bv})
+					st.status, st.statusSet, st.err = "", true, c18Unknown
+					st.epoch++
+				}
+			case *ssa.UnOp:
+				if y.Op != token.MUL {
+					continue
+				}
+				if fa, isFA := y.X.(*ssa.FieldAddr); isFA && fieldName(fa) == "Error" {
+					if iv, okB := statusBase(ev.c, fa); okB {
+						loadEpoch[loadKey{ev.c, y}] = stateOf(iv).epoch
+					}
+				}
+				if c18IsNamedPtr(y.X.Type(), "ExtendedDaemonsetSettingStatus") { // whole copy *p
+					bc, bv := iunwrap(ev.c, y.X)
+					snaps[loadKey{ev.c, y}] = *stateOf(c18IV{bc, bv})
+				}
+			case *ssa.Call:
+				if isUpdate[y] != nil {
+					oc, ov := iunwrap(ev.c, isUpdate[y].Obj)
+					sn, has := pending[c18IV{oc, ov}]
+					evaluate(y, sn, has)
+					continue
+				}
+				if ev.c.sub[y] != nil || isReader(calleeName(&y.Call)) {
+					continue // expanded in place, or a known reader
+				}
+				for _, a := range y.Call.Args {
+					ac, av := iunwrap(ev.c, a)
+					if fa, isFA := av.(*ssa.FieldAddr); isFA {
+						if iv, okB := statusBase(ac, fa); okB {
+							av, ac = iv.v, iv.c
+						}
+					}
+					if st, tracked := states[c18IV{ac, av}]; tracked {
+						st.status, st.statusSet, st.err = "", true, c18Unknown
+						st.epoch++
+					}
+				}
+			}
+		}
+		if infeasible || is(getErr, true) {
+			continue
+		}
+		if !wrote {
+			fail := is(refNil, true) || is(refNameEmpty, true) || is(nodesErr, true) || is(conflictErr, true)
+			if fail {
+				r.Check("C18.R3", "no status write on path ["+describe()+"]", r.Prog.Pos(lastPos), shortFunc(rec), "a failing path reaches the status write (the setting must end in error)", false, "the path returns without handing the computed status to the status update")
+			}
+		}
+	}
+}
+
+// c18ScanCaller handles a scan that was extracted into a helper taking the record map, the
+// node's name and labels and the sorted settings as parameters: at the helper's only call site
+// name and labels belong to one node, the map is a local of the caller that the caller only resets
+// for a node after that node's call, the helper's error is returned as it is (and is the caller's
+// only error), and the settings handed in are sorted before the loop that contains the call.
+// Returns the calling function (the conflict search proper).
+func c18ScanCaller(r *Run, scanFn *ssa.Function, scan *c18Scan, reach map[*ssa.Function]bool) *ssa.Function {
+	var cs *ssa.Call
+	for _, ci := range callSitesOf(scanFn, reach) {
+		c, isCall := ci.(*ssa.Call)
+		if !isCall || cs != nil {
+			r.Undecided("C18.R4", "scan helper call", r.Prog.Pos(ci.Pos()), shortFunc(ci.Parent()), "the scan helper is called from more than one site (or by go/defer)")
+			return nil
+		}
+		cs = c
+	}
+	if cs == nil {
+		r.Undecided("C18.R4", "scan helper call", r.Prog.Pos(scanFn.Pos()), shortFunc(scanFn), "no static call of the scan helper")
+		return nil
+	}
+	caller := cs.Parent()
+	fnName := shortFunc(caller)
+	pos := r.Prog.Pos(cs.Pos())
+	k := newKeyer(caller)
+	loops := naturalLoops(caller)
+	arg := func(p *ssa.Parameter) ssa.Value { return cs.Call.Args[paramIndex(p)] }
+	// one node
+	nameRoot, np := accessPath(arg(scan.nameParam))
+	labRoot, lp := accessPath(unwrap(arg(scan.labelsParam)))
+	nameOK := len(np) >= 1 && np[len(np)-1] == "Name" && baseTypeName(nameRoot.Type()) == pkgCoreV1+".Node"
+	labOK := len(lp) >= 1 && lp[len(lp)-1] == "Labels" && baseTypeName(labRoot.Type()) == pkgCoreV1+".Node"
+	same := nameOK && labOK && c18Ident(k, nameRoot) == c18Ident(k, labRoot)
+	r.Check("C18.R4", "scan helper call: one node", pos, fnName, "the name the record is keyed by and the labels that are matched belong to the same node", same,
+		fmt.Sprintf("name argument %s, labels argument %s", pathString(arg(scan.nameParam)), pathString(unwrap(arg(scan.labelsParam)))))
+	if !same {
+		return nil
+	}
+	nID := c18Ident(k, nameRoot)
+	var loopN *loopInfo
+	if d := c18IdentDef(nameRoot); d != nil {
+		loopN = innermostLoop(loops, d.Block())
+	}
+	csLoop := innermostLoop(loops, cs.Block())
+	// the map
+	mm, isMM := arg(scan.mapParam).(*ssa.MakeMap)
+	if !isMM {
+		r.Undecided("C18.R4", "scan helper call: record", pos, fnName, "the record handed to the scan helper is not a local map of the caller")
+		return nil
+	}
+	for _, rr := range refs(mm) {
+		switch x := rr.(type) {
+		case *ssa.DebugRef:
+		case *ssa.Call:
+			if x != cs {
+				r.Undecided("C18.R4", "scan helper call: record", r.Prog.Pos(x.Pos()), fnName, "the record is handed to another call")
+			}
+		case *ssa.MapUpdate:
+			upos := r.Prog.Pos(instrPos(x))
+			if x.Map != ssa.Value(mm) || !c18NameOfRoot(k, x.Key, nID, pkgCoreV1+".Node") || loopN == nil {
+				r.Undecided("C18.R4", "other write to the record", upos, fnName, "a write to the record in the caller that is not keyed by the current node's name")
+				continue
+			}
+			leak := reachesAvoiding(x, cs, loopN.Header)
+			detail := "reaches the scan of a node only after the next node is taken"
+			if leak {
+				detail = "the entry written here would be found by the scan of the same node"
+			}
+			r.Check("C18.R4", "other write to the record", upos, fnName, "a write that is not a match record (e.g. the reset after a node's scan) cannot reach the look-up for the same node", !leak, detail)
+		default:
+			r.Undecided("C18.R4", "scan helper call: record", r.Prog.Pos(instrPos(rr)), fnName, "the record is used by "+rr.String()+" in the caller")
+		}
+	}
+	// the helper's error is propagated unchanged and is the caller's only error
+	errIdx := scanFn.Signature.Results().Len() - 1
+	cErr := caller.Signature.Results().Len() - 1
+	paths, _, ok := funcPaths(caller, 5000)
+	r.paths += len(paths)
+	if !ok || cErr < 0 {
+		r.Undecided("C18.R4", "scan helper call: error propagated", pos, fnName, "path cap exceeded or the caller returns no error")
+		return nil
+	}
+	isErrOfCall := func(v ssa.Value) bool {
+		ex, isEx := unwrap(v).(*ssa.Extract)
+		return isEx && ex.Tuple == ssa.Value(cs) && ex.Index == errIdx
+	}
+	propOK, detail, nProp := true, "", 0
+	for _, p := range paths {
+		ret := returnOf(p.Blocks[len(p.Blocks)-1])
+		res := unwrap(p.Resolve(ret.Results[cErr]))
+		failed := p.Has(false, func(v ssa.Value, _ string) bool { return isNilCompareOf(v, isErrOfCall) })
+		switch {
+		case failed:
+			nProp++
+			if !isErrOfCall(res) {
+				propOK, detail = false, "a path on which the scan helper failed returns "+res.String()
+			}
+		case !isNilConst(res):
+			propOK, detail = false, "the caller returns an error of its own: "+res.String()
+		}
+	}
+	if nProp == 0 {
+		propOK, detail = false, "the error of the scan helper is never tested"
+	}
+	r.Check("C18.R4", "scan helper call: error propagated", pos, fnName, "a conflict (or selector error) found by the scan helper is returned by the conflict search as it is", propOK, detail)
+	// sorted before the loop that contains the call
+	sp, isSP := scan.slice.(*ssa.Parameter)
+	if !isSP {
+		r.Undecided("C18.R1", "sort before scan", pos, fnName, "the scan helper does not scan a slice it is handed")
+		return caller
+	}
+	less, _ := c18FindSort(r, caller, arg(sp), csLoop, 0)
+	dir := 0
+	if less != nil {
+		dir = c18LessTable(r, less)
+	}
+	c18Skips(r, scanFn, scan, dir)
+	return caller
 }
